@@ -95,27 +95,6 @@ func (o *oracle) sameDuty(x xduty, d duty) bool {
 	return o.kind == "sync" || x.slot == d.slot
 }
 
-// boundaryNotice: between the successful fetch of `key` and now, was a notice of the given class handled whose
-// slot lies in the epoch (period) before `key` and after which no tick of that earlier epoch (period) followed?
-func (o *oracle) boundaryNotice(key uint64, from int, want func(hev) bool) bool {
-	for i := from; i < len(o.hist); i++ {
-		h := o.hist[i]
-		if h.name == "tick" || !want(h) || h.key+1 != key {
-			continue
-		}
-		later := false
-		for j := i + 1; j < len(o.hist); j++ {
-			if o.hist[j].name == "tick" && o.hist[j].key < key {
-				later = true
-			}
-		}
-		if !later {
-			return true
-		}
-	}
-	return false
-}
-
 type violation struct{ sig, detail string }
 
 // observe consumes the atoms of one op in call order and returns the violations of that op
@@ -261,25 +240,21 @@ func (o *oracle) classifyLoss(key uint64, firstTickOfKey bool) string {
 }
 
 func (o *oracle) classifyLossFrom(key uint64, from int, firstTickOfKey bool) string {
-	switch o.kind {
-	case "att":
-		if o.boundaryNotice(key, from, func(h hev) bool { return h.name == "reorg" && h.cur && !h.prev }) {
-			return "C16/attester-next-epoch-duties-lost-after-boundary-reorg"
-		}
-		// indices change: only the first tick handled after the notice loses its duties (it re-fetches afterwards)
-		lastNotice := len(o.hist)
-		for lastNotice > 0 && o.hist[lastNotice-1].name != "tick" {
-			lastNotice--
-		}
-		if lastNotice < from {
-			lastNotice = from
-		}
-		if o.boundaryNotice(key, lastNotice, func(h hev) bool { return h.name == "indices" }) {
-			return "C16/attester-duties-lost-at-first-tick-after-boundary-indices-change"
-		}
-	case "sync":
-		if o.boundaryNotice(key, from, func(h hev) bool { return h.name == "reorg" && h.cur }) {
-			return "C16/sync-committee-next-period-duties-lost-after-boundary-reorg"
+	// A tick handled after a reorg(previous) notice that carries a slot of a LATER epoch: the notice resets the
+	// already fetched duties of that epoch (`ResetEpoch(currentEpoch)` of the notice's epoch) without setting
+	// fetchNextEpoch when its slot is in the first half of the epoch; the late tick consumes fetchFirst for its own
+	// (earlier) epoch, and the first tick of the reset epoch has nothing that tells it to fetch first.
+	if o.kind == "att" {
+		for i := from; i < len(o.hist); i++ {
+			h := o.hist[i]
+			if h.name != "reorg" || !h.prev || h.key != key {
+				continue
+			}
+			for j := i + 1; j < len(o.hist); j++ {
+				if o.hist[j].name == "tick" && o.hist[j].key < key {
+					return "C16/attester-duties-lost-after-previous-reorg-of-later-epoch-handled-before-earlier-tick"
+				}
+			}
 		}
 	}
 	return "C16/" + kindName[o.kind] + "-fetched-duty-not-dispatched"
